@@ -117,49 +117,77 @@ def unitSpan : Bytes → Bytes × Bytes
   | [] => ([], [])
   | c :: rest => if c == 46 || (48 ≤ c && c ≤ 57) then ([], c :: rest) else let (u, r) := unitSpan rest; (c :: u, r)
 
+/-- the optional fraction after the whole number: (value, digits kept, rest, "a digit was consumed") -/
+def fracPart (s1 : Bytes) : Nat × Nat × Bytes × Bool :=
+  match s1 with
+  | 46 :: s1' => let (f, k, s2) := leadingFraction s1' 0 0 false; (f, k, s2, s2.length != s1'.length)
+  | _ => (0, 0, s1, false)
+
+/-- the lexical half of one round: whole number, fraction value and digit count, unit text, rest -/
+def roundScan (s : Bytes) : Except DurErr (Nat × Nat × Nat × Bytes × Bytes) :=
+  match s with
+  | [] => .error .invalid
+  | c :: _ =>
+    if !(c == 46 || (48 ≤ c && c ≤ 57)) then .error .invalid
+    else
+      match leadingInt s 0 with
+      | none => .error .invalid
+      | some (v, s1) =>
+        let pre := s1.length != s.length
+        let (f, k, s2, post) := fracPart s1
+        if !pre && !post then .error .invalid
+        else
+          let (u, s3) := unitSpan s2
+          if u.isEmpty then .error .missingUnit else .ok (v, f, k, u, s3)
+
+/-- the arithmetic half, once the unit is known -/
+def unitApply (fmul : Nat → Nat → Nat → Nat) (unit v f k d : Nat) : Except DurErr Nat :=
+  if v > two63 / unit then .error .invalid
+  else
+    let v := v * unit
+    let v := if f > 0 then v + fmul f unit k else v
+    if f > 0 && v > two63 then .error .invalid
+    else
+      -- uint64 addition: d ≤ 2^63 and v ≤ 2^63, so the sum wraps exactly when both are 2^63
+      -- (then it is 0 and passes the test below; time.ParseDuration does the same)
+      let d := (d + v) % 2 ^ 64
+      if d > two63 then .error .invalid else .ok d
+
+/-- one round of the loop of `ParseDuration`: a number, an optional fraction, a unit; the rest of
+    the input and the new sum, or the error -/
+def parseRound (units : List (Bytes × Nat)) (fmul : Nat → Nat → Nat → Nat) (s : Bytes) (d : Nat) :
+    Except DurErr (Bytes × Nat) :=
+  match roundScan s with
+  | .error e => .error e
+  | .ok (v, f, k, u, s3) =>
+    match units.lookup u with
+    | none => .error (.unknownUnit u)
+    | some unit =>
+      match unitApply fmul unit v f k d with
+      | .error e => .error e
+      | .ok d' => .ok (s3, d')
+
 /-- the loop of `ParseDuration` (fuel = input length: each round consumes at least one byte) -/
 def parseLoop (units : List (Bytes × Nat)) (fmul : Nat → Nat → Nat → Nat) :
     (fuel : Nat) → Bytes → Nat → Except DurErr Nat
   | 0, s, d => if s.isEmpty then .ok d else .error .invalid
   | fuel + 1, s, d =>
-    match s with
-    | [] => .ok d
-    | c :: _ =>
-      if !(c == 46 || (48 ≤ c && c ≤ 57)) then .error .invalid
-      else
-        match leadingInt s 0 with
-        | none => .error .invalid
-        | some (v, s1) =>
-          let pre := s1.length != s.length
-          let (f, k, s2, post) :=
-            match s1 with
-            | 46 :: s1' => let (f, k, s2) := leadingFraction s1' 0 0 false; (f, k, s2, s2.length != s1'.length)
-            | _ => (0, 0, s1, false)
-          if !pre && !post then .error .invalid
-          else
-            let (u, s3) := unitSpan s2
-            if u.isEmpty then .error .missingUnit
-            else
-              match units.lookup u with
-              | none => .error (.unknownUnit u)
-              | some unit =>
-                if v > two63 / unit then .error .invalid
-                else
-                  let v := v * unit
-                  let v := if f > 0 then v + fmul f unit k else v
-                  if f > 0 && v > two63 then .error .invalid
-                  else
-                    -- uint64 addition: d ≤ 2^63 and v ≤ 2^63, so the sum wraps exactly when both are 2^63
-                    -- (then it is 0 and passes the test below; time.ParseDuration does the same)
-                    let d := (d + v) % 2 ^ 64
-                    if d > two63 then .error .invalid else parseLoop units fmul fuel s3 d
+    if s.isEmpty then .ok d
+    else
+      match parseRound units fmul s d with
+      | .error e => .error e
+      | .ok (s3, d') => parseLoop units fmul fuel s3 d'
+
+/-- the optional sign -/
+def signSplit (s : Bytes) : Bool × Bytes :=
+  match s with
+  | 45 :: r => (true, r)
+  | 43 :: r => (false, r)
+  | _ => (false, s)
 
 /-- `ParseDuration` -/
 def parseDuration (units : List (Bytes × Nat)) (fmul : Nat → Nat → Nat → Nat) (s : Bytes) : Except DurErr Int :=
-  let (neg, s1) := match s with
-    | 45 :: r => (true, r)
-    | 43 :: r => (false, r)
-    | _ => (false, s)
+  let (neg, s1) := signSplit s
   if s1 == [48] then .ok 0
   else if s1.isEmpty then .error .invalid
   else
@@ -168,6 +196,9 @@ def parseDuration (units : List (Bytes × Nat)) (fmul : Nat → Nat → Nat → 
     | .ok d =>
       if neg then .ok (-(d : Int))
       else if d > two63 - 1 then .error .invalid else .ok d
+
+/-- time.ParseDuration's table: the same without the day -/
+def stdUnitsOf (units : List (Bytes × Nat)) : List (Bytes × Nat) := units.filter fun p => p.1 != [100]
 
 /-- exact value of `float64(f) * (float64(unit) / 10^k)` when it is exact (10^k divides unit) -/
 def fmulExact (f unit k : Nat) : Nat := f * (unit / 10 ^ k)
